@@ -204,8 +204,10 @@ def fail_contract(appname, kind, n, behaviour):
             except TimeoutError:
                 if behaviour != "hang+timeout":
                     return "unexpected TimeoutError"
-            except Exception:
-                pass
+            except Exception as e:
+                import subprocess as _sp
+                if behaviour.startswith("exit3") and not isinstance(e, _sp.SubprocessError):
+                    return f"the failing exit code is reported as {type(e).__name__}: {e} (SubprocessError expected)"
         if app.get_app_state() != AppState.CANCELLED:
             return f"state after the failed run is {app.get_app_state()}"
         for meth in ("get_alignment", "get_alignment_order", "join", "start", "cancel"):
@@ -229,7 +231,7 @@ for appname in APPS:
                 R.check("start/join: rows and order map back to the inputs; result readable only after join; nothing left behind",
                         f"ok {appname}", {"app": appname, "seqtype": kind, "n": n, "order": order},
                         lambda a=appname, k=kind, n=n, o=order: ok_contract(a, k, n, o))
-    for behaviour in ("exit3", "garbage", "missing", "hang+timeout", "hang+cancel", "missing-binary"):
+    for behaviour in ("exit3", "exit3delete", "garbage", "missing", "hang+timeout", "hang+cancel", "missing-binary"):
         R.check("failed run: error raised, state CANCELLED, results unreadable, clean-up done (no temp file, child or cwd change left)",
                 f"fail {appname} {behaviour}", {"app": appname, "behaviour": behaviour},
                 lambda a=appname, b=behaviour: fail_contract(a, "protein", 3, b))
